@@ -13,6 +13,12 @@ func Run(t *testing.T, p *plan.Plan, keepLog int) *Result {
 		return RunRouter(t, p, keepLog)
 	case "xport":
 		return RunXport(t, p, keepLog)
+	case "limiter":
+		return RunLimiter(t, p, keepLog)
+	case "addr":
+		return RunAddr(t, p, keepLog)
+	case "auth":
+		return RunAuth(t, p, keepLog)
 	}
 	return &Result{Seed: p.Seed, Family: p.Family, Focus: p.Focus, Note: "unknown family"}
 }
